@@ -91,7 +91,7 @@ theorem enclS.inB_of_ne {A : IVal K} {v : FVal K} (h : enclS A v) (hv : v ≠ na
   · exact absurd h hv
   · exact h
 
-/-- the constructor `Interval(const I&, bool)` (after /repo e33236f): NaN-bounded results are replaced
+/-- the constructor `Interval(const I&, bool)` (after /repo 0be5df1): NaN-bounded results are replaced
     by the whole line -/
 theorem b_of (b : Bnd K) (u : Bool) :
     (IVal.of b u).b = if (b.lo.isNan || b.hi.isNan) = true then wholeB else b := by
